@@ -25,7 +25,7 @@ Shape(j) == [states |-> ToSet(j.states), first |-> j.first, default |-> j.defaul
 
 Unobs == -1000000       \* parameter not declared by the state function: not observed
 
-MonInit == [engSince |-> FALSE, iterReq |-> FALSE, depth |-> 0, icalls |-> 0, bad |-> ""]
+MonInit == [engSince |-> FALSE, iterReq |-> FALSE, depth |-> 0, icalls |-> 0, idone |-> FALSE, pend |-> FALSE, bad |-> ""]
 
 TInit == /\ tid \in 1..NT /\ l = 1 /\ verdict = "" /\ vkind = "" /\ vnew = FALSE /\ seen = {} /\ mon = MonInit
          /\ Init(Shape(Batch[tid].shape))
@@ -77,17 +77,26 @@ MonStep(ev, o) ==
         top == mon.depth = 0
         engS == IF ev.e \in {"engage", "aiter"} THEN TRUE ELSE mon.engSince
         iterStart == top /\ ev.e \in {"execute", "aiter"}
-        ireq == IF iterStart THEN engS ELSE mon.iterReq
+        ireq == IF iterStart THEN engS ELSE (mon.iterReq \/ ev.e = "engage")   \* engage() from a state function counts
         depth1 == IF ev.e = "ret" THEN mon.depth - 1 ELSE mon.depth + Len(oc)
         icalls1 == (IF iterStart THEN 0 ELSE mon.icalls) + Len(oc)
         iterEnd == (ev.e = "ret" /\ depth1 = 0) \/ (iterStart /\ Len(oc) = 0)
+        \* a state function that selects a state after the machine stopped under it (done(), then next_state(x) /
+        \* engage()) leaves x pending, and named by current_state, on a stopped machine until engage() or done()
+        odone == hasObs /\ \E i \in 1..Len(o.cb) : o.cb[i].e = "done"
+        idone1 == IF iterStart THEN FALSE
+                  ELSE IF ~top /\ (ev.e = "done" \/ (ev.e = "nsnow" /\ odone /\ Len(oc) = 0)) THEN TRUE ELSE mon.idone
+        pend1 == IF ev.e \in {"done", "disable", "adisable"} \/ (top /\ ev.e = "engage") THEN FALSE
+                 ELSE IF ~top /\ mon.idone /\ ev.e \in {"ns", "engage"} THEN TRUE
+                 ELSE IF ~top /\ mon.idone /\ ev.e = "nsnow" THEN Len(oc) = 0
+                 ELSE mon.pend
         bad1 == IF \E i \in 1..Len(oc) : Regular(oc[i].s) /\ ~ireq THEN "mon:regular_without_engage"
                 ELSE IF \E i \in 1..Len(oc) : (oc[i].tm # Unobs /\ oc[i].tm < 0) \/ (oc[i].stm # Unobs /\ oc[i].stm < 0)
                      THEN "mon:negative_time"
-                ELSE IF iterEnd /\ hasObs /\ icalls1 = 0 /\ (o.exec \/ o.cur # "") THEN "mon:idle_not_reset"
+                ELSE IF iterEnd /\ hasObs /\ icalls1 = 0 /\ (o.exec \/ (o.cur # "" /\ ~pend1)) THEN "mon:idle_not_reset"
                 ELSE ""
     IN [engSince |-> IF iterEnd THEN FALSE ELSE engS, iterReq |-> ireq, depth |-> depth1,
-        icalls |-> icalls1, bad |-> bad1]
+        icalls |-> icalls1, idone |-> idone1, pend |-> pend1, bad |-> bad1]
 
 J(v) == ToJson(v)
 
